@@ -32,10 +32,16 @@ CLAIMED = {
     "C04": dict(ref="DESIGN.md §3 C04", note=NOTE + "; partial: buildResult's positional keys and the goroutines of scan are outside",
                 text="The rank comparator (both build variants) is proved to be the documented lexicographic order for all 2^64 keys and indices; the lazy "
                      "merger is proved to return the stable global order for arbitrary probe orders; pass-through mergers and partitioning for partial chunks."),
+    "C01": dict(ref="DESIGN.md §3 C01", note=NOTE + "; decomposed: parse leg + glue leg at small bounds; per-kind matcher specifications are C02's",
+                text="Queries generated from the documented grammar are parsed symbolically (term texts symbolic) and must come out exactly as documented; parse and "
+                     "the real matchers together must report a line iff it satisfies the query, for every line and query inside the bounds."),
+    "C08": dict(ref="DESIGN.md §3 C08", note=NOTE + "; partial: sequential pieces only, nothing timed",
+                text="Every sequence of queries inside the bound is run through the real per-chunk result cache and must equal an uncached filter after every step; "
+                     "the conditions under which a narrower search scope may be reused are checked on grammar-generated queries. Timing/coalescing is NOT claimed."),
 }
 PENDING = "check not built yet in this session (planned, see DESIGN.md §3)"
 NA = {
-    "C01": PENDING,  "C07": PENDING, "C08": PENDING, "C09": PENDING,
+      "C07": PENDING, "C09": PENDING,
      "C12": PENDING, "C16": PENDING, "C19": PENDING,
     "C14": "terminal modes, child processes, signals and the goroutine/channel render loop are OS effects and schedules, not a bounded computation the SSA→SMT encoder can make symbolic (DESIGN.md §5)",
     "C15": "relation between the whole Terminal state and the byte stream written through tui.Window; thousands of lines of drawing code on uniseg tables with no leaf whose correctness implies the property (DESIGN.md §5)",
